@@ -693,7 +693,7 @@ class IpWorld:
             k = self.ch.weighted("acc.conn_behaviour", [(n, w.get(n, 0)) for n in
                                                          ["honest", "close_m1", "close_m3", "rst_m1", "rst_m3", "http4xx_m1", "http4xx_m3", "bad_sig", "wrong_id",
                                                           "auth_m2", "auth_m4", "busy_m2", "short_key", "silent_m1", "silent_m3", "garbage", "rst_after_verify",
-                                                          "fin_after_verify", "unknown_http"]], "honest")
+                                                          "fin_after_verify", "unknown_http", "sub_reply_no_status"]], "honest")
             beh = {"kind": k}
         self.conn_behaviour[conn.no] = beh
         if beh["kind"] == "acceptclose":
@@ -746,6 +746,14 @@ class IpWorld:
                 if beh == "unknown_http" and step == "m1":
                     return b"ICY 200 OK\r\nContent-Length: 0\r\n\r\n"
             return None
+        if beh == "sub_reply_no_status" and req.method == "PUT" and b'"ev":true' in req.body:
+            # a 207 whose rows carry no status (garbled reply to the re-subscription request)
+            self.ctx.probe("sub_reply_no_status")
+            try:
+                rows = [{"aid": it["aid"], "iid": it["iid"]} for it in json.loads(req.body)["characteristics"]]
+            except Exception:  # noqa: BLE001
+                rows = []
+            return rhttp.response(207, rhttp.compact_json({"characteristics": rows}))
         if self.stall_all:
             self.ctx.probe("stalled_response")
             return "silent"
